@@ -23,7 +23,10 @@ CONSTANTS NTasks, N, MaxOps, MaxRec, MaxT, MTypes,
           Prep,    \* BOOLEAN: scope objects made in one place and entered in another are explored
           Bug
 (* MTypes \subseteq {"Cat", "Last", "Sum", "Boom", "Same"}
-   "Same": every record is the very same (shared, immutable) instance, folded by addition - the value counts the records *)
+   "Same": every record is the very same (shared, immutable) instance, folded by addition - the value counts the records
+   "CatSub": like "Cat", but the records are instances of a SUBCLASS and the merge function answers with an instance of
+             the base class: the value belongs to the type that was recorded, whatever class the fold produces
+             (its merged view is not observed: the library keys nested values by their class there) *)
 
 Tasks == 1..NTasks
 S == 1..N
@@ -80,13 +83,15 @@ IsCompleted(s) == IsCompletedK(done, kids, s)
 RECURSIVE ViewOf(_, _, _, _)
 MergeVal(m, lhs, rhs) ==
   IF rhs = <<>> THEN lhs ELSE IF lhs = <<>> THEN rhs
-  ELSE CASE m = "Cat" -> lhs \o rhs
+  ELSE CASE m \in {"Cat", "CatSub"} -> lhs \o rhs
          [] m \in {"Sum", "Same"} -> <<lhs[1] + rhs[1]>>
          [] OTHER -> rhs
 RECURSIVE FoldKids(_, _, _, _, _)
 FoldKids(vs, ks, m, q, acc) ==
   IF q = <<>> THEN acc ELSE FoldKids(vs, ks, m, Tail(q), MergeVal(m, acc, ViewOf(vs, ks, m, Head(q))))
 ViewOf(vs, ks, m, s) == FoldKids(vs, ks, m, ks[s], vs[s][m])
+
+SeenView(m, s) == IF m = "CatSub" THEN <<>> ELSE ViewOf(vals, kids, m, s)
 
 (* the scopes that complete when s is examined after it finished / after a nested one completed *)
 RECURSIVE Closure(_, _, _)
@@ -187,7 +192,7 @@ Finish(t) ==
 RunCb(s) ==
   /\ s \in cbq /\ cbq' = cbq \ {s}
   /\ cblog' = [cblog EXCEPT ![s] = Append(@, [at |-> now, completed |-> IsCompleted(s), time |-> doneAt[s],
-                                               own |-> vals[s], view |-> [m \in MTypes |-> ViewOf(vals, kids, m, s)]])]
+                                               own |-> vals[s], view |-> [m \in MTypes |-> SeenView(m, s)]])]
   /\ obs' = [obs EXCEPT !.cb = cblog']
   /\ UNCHANGED <<par, kids, phase, mk, kind, done, born, doneAt, vals, cur, tg, stack, saved, grp, alive, wait, now, nrec, nops, drained>>
 
@@ -223,7 +228,7 @@ Record(t, m) ==
             vals' = [vals EXCEPT ![s][m] =
                        IF old = <<>> THEN (IF m = "Same" THEN <<1>> ELSE <<x>>)
                        ELSE CASE m = "Same" -> <<old[1] + 1>>
-                              [] m = "Cat" -> IF Bug = "merge_swapped" THEN <<x>> \o old ELSE old \o <<x>>
+                              [] m \in {"Cat", "CatSub"} -> IF Bug = "merge_swapped" THEN <<x>> \o old ELSE old \o <<x>>
                               [] m = "Sum" -> <<old[1] + x>>
                               [] m = "Boom" -> old            \* merge function raises: record dropped
                               [] OTHER -> <<x>>]
@@ -259,7 +264,7 @@ Drain ==
                                               completed |-> IsCompletedK(u.d, kids, s),
                                               time |-> IF done[s] THEN doneAt[s] ELSE now - born[s],
                                               own |-> vals[s],
-                                              view |-> [m \in MTypes |-> ViewOf(vals, kids, m, s)]]>>
+                                              view |-> [m \in MTypes |-> SeenView(m, s)]]>>
                                       ELSE <<>>],
                 res |-> IF \A s \in S : phase[s] = "new" \/ s \in mk \/ u.d[s] THEN "ok" ELSE "incomplete"]
   /\ UNCHANGED <<par, kids, phase, mk, kind, done, born, doneAt, cbq, cblog, vals, cur, tg, stack, saved, grp, alive, wait,
@@ -300,6 +305,6 @@ CompletionIffSubtreeLeft == \A s \in S : (SubtreeLeft(s) /\ Rest) => (done[s] /\
 Attribution == [][nrec' = nrec + 1 =>
                     \A s \in S : vals'[s] # vals[s] => (\E t \in Tasks : cur[t] = s /\ alive[t] = "run")]_vars
 (* C10: a scope's value is the left fold of its records in recording order: ids strictly increase *)
-FoldOrder == "Cat" \in MTypes =>
-               \A s \in S : \A i, j \in DOMAIN vals[s]["Cat"] : i < j => vals[s]["Cat"][i] < vals[s]["Cat"][j]
+FoldOrder == \A m \in MTypes \cap {"Cat", "CatSub"} :
+               \A s \in S : \A i, j \in DOMAIN vals[s][m] : i < j => vals[s][m][i] < vals[s][m][j]
 =============================================================================
